@@ -76,7 +76,9 @@ HdrSets ==
 
 (* trace: the dial context carries an httptrace.ClientTrace with every hook set (must not change any outcome) *)
 SetCfgs == { [BaseCfg EXCEPT !.subs = s, !.comp = cm, !.jar = j, !.tmo = t, !.trace = (cm = j)] :
-               s \in { << >>, << "chat", "superchat" >> }, cm \in BOOLEAN, j \in BOOLEAN, t \in {"none", "ht"} }
+               \* Dialer.Subprotocols: nil, exactly one entry, two entries (x caller header Sec-Websocket-Protocol absent /
+               \* present, from HdrSets: with a non-empty Subprotocols the caller's header is protocol-owned)
+               s \in { << >>, << "chat" >>, << "chat", "superchat" >> }, cm \in BOOLEAN, j \in BOOLEAN, t \in {"none", "ht"} }
 
 CoreCfgs == { BaseCfg, [BaseCfg EXCEPT !.subs = << "chat", "superchat" >>, !.comp = TRUE, !.tmo = "ht", !.trace = TRUE] }
 
